@@ -61,6 +61,39 @@ def counted_scenario(rng):
     return lines
 
 
+def slow_exit_scenario(rng):
+    """managed threads whose at-exit callbacks take long (clean-up work), a bounded join-all issued while they are at it: it
+    gives up at its deadline with the thread still counted, and the unbounded one afterwards waits for everything"""
+    n = rng.randint(1, 3)
+    lines = []
+    for i in range(1, n + 1):
+        ops = ["A%d" % rng.choice([2000, 3000, 5000])] + (["A"] if rng.random() < 0.4 else [])
+        if rng.random() < 0.4:
+            ops.append("Z%d" % rng.choice([1, 2]))
+        rng.shuffle(ops)
+        lines.append("THREAD %d M %s" % (i, " ".join(ops)))
+    lines.append("MAIN %s P T%d JA T0 JA" % (" ".join("L%d" % i for i in range(1, n + 1)), rng.choice([5, 10, 50, 100])))
+    return lines
+
+
+def handle_reuse_scenario(rng):
+    """one aws_thread handle, initialised once, launched and joined two or three times in a row (a component that is stopped
+    and started again), next to other threads"""
+    rounds = rng.randint(2, 3)
+    lines = []
+    for i in range(1, rounds + 1):
+        ops = [rng.choice(["A", "P", "V", "Z1", "A"]) for _ in range(rng.randint(0, 3))]
+        lines.append(("THREAD %d J%s %s" % (i, "" if i == 1 else "r1", " ".join(ops))).rstrip())
+    extra = rounds + 1
+    lines.append("THREAD %d M %s" % (extra, rng.choice(["", "A", "Z2"])))
+    main = ["L%d" % extra]
+    for i in range(1, rounds + 1):
+        main += ["L%d" % i] + (["P"] if rng.random() < 0.5 else []) + ["J%d" % i]
+    main.append("JA")
+    lines.append("MAIN " + " ".join(main))
+    return lines
+
+
 def random_scenario(rng):
     n = rng.randint(1, 6)
     kinds = {}
@@ -150,6 +183,10 @@ def run(ctx):
         blocks.append((pol, sc))
     for _ in range(40 if not thorough else 800):
         blocks.append((rng.choice(["pct %d 2 80", "rand %d", "pct %d 3 120"]) % rng.randrange(1, 10 ** 6), counted_scenario(rng)))
+    for _ in range(24 if not thorough else 400):
+        blocks.append((rng.choice(["pct %d 2 80", "rand %d"]) % rng.randrange(1, 10 ** 6), handle_reuse_scenario(rng)))
+    for _ in range(24 if not thorough else 400):
+        blocks.append((rng.choice(["pct %d 2 80", "pct %d 1 60", "fixed -"]).replace("%d", str(rng.randrange(1, 10 ** 6))), slow_exit_scenario(rng)))
     for pol, sc in blocks:
         ctx.distinct.add(hash(pol + "|" + "\n".join(sc)))
     ctx.add_sample({"policy": blocks[0][0], "scenario": blocks[3][1]})
